@@ -11,8 +11,8 @@ def main():
     ck = Check("C01", "proof")
     build_repo()
     pr = ck.proofs()
-    nlp = 700 if ck.thorough() else 90
-    ncfg = 8 if ck.thorough() else 5
+    nlp = 400 if ck.thorough() else 90
+    ncfg = 6 if ck.thorough() else 5
     lps = family_stream(ck.rng, nlp, big=ck.thorough())
     cases, meta = [], {}
     for li, lp in enumerate(lps):
